@@ -93,6 +93,31 @@ def run(ctx: Ctx) -> None:
         ctx.case(("string", s, sorted(c["env"].items())))
         if r.get("ok") != bool_sem(c["e"], c["env"]):
             ctx.violation("string-level evaluation differs from the Boolean value (precedence)", {"string": s, "fc": c["fc"], "got": r}, key=f"string:{s}")
+    # string level, exhaustively for small expressions: every tree shape with up to 4 leaves over distinct keys and every operator choice, written with
+    # the brackets the documented precedence needs (and, thorough, with redundant ones / the other spellings), under every truth assignment
+    n_exh = 0
+    styles = [("min", "upper", "between"), ("min", "upper", "none")] if ctx.quick else \
+        [("min", "upper", "between"), ("min", "upper", "none"), ("min", "upper", "one"), ("max", "upper", "between"), ("min", "lower", "between"), ("min", "symbol", "none"), ("rand", "rand", "rand")]
+    for n in range(2, 5):
+        leaves = [("cond", k) for k in KEYS[:n]]
+        for e in E.all_shapes(n, leaves, ops):
+            order = [l[1] for l in T.leaves(e)]
+            if sorted(order) != sorted(KEYS[:n]) or (ctx.quick and order != KEYS[:n]):
+                continue  # every key once (quick: in one order, thorough: in every order)
+            keys = sorted(l[1] for l in T.leaves(e))
+            for br, sp, ws in styles:
+                s = T.render(e, T.Style(rng, br, sp, ws)).strip()
+                for vals in itertools.product([True, False], repeat=n):
+                    env = dict(zip(keys, vals))
+                    r = E.eval_fc_string(s, {k: (v, None if v else f"fc {k} failed") for k, v in env.items()})
+                    n_exh += 1
+                    want = bool_sem(e, env)
+                    if r.get("ok") != want or ((r.get("msg") is not None) != (not want)):
+                        ctx.violation("string-level evaluation differs from the Boolean value (precedence / brackets) or message-iff-unfulfilled is broken",
+                                      {"string": s, "fc": env, "expected": want, "got": r}, key=f"string-exh:{s}")
+                        break
+    ctx.case(("string-exhaustive", n_exh))
+    ctx.coverage["string_level_exhaustive_evaluations"] = n_exh
     ctx.coverage["string_level_cases"] = n_str
     for c in cases[:: max(1, len(cases) // 5)][:5]:
         ctx.sample({"tree": T.to_json(c["e"]), "fc": c["fc"], "impl": c["impl"]})
